@@ -28,6 +28,8 @@ with ThreadPoolExecutor(8) as ex:
         name = patch.replace("/verif/seeded/", "").replace("/patch.diff", "").replace("/tmp/wt_", "")
         if res is None:
             print("%-28s %s" % (name, err)); continue
+        if len(res) < 20:
+            print("%-28s CHECKER-CRASH (%d property lines) %s" % (name, len(res), err[-200:])); continue
         fired = sorted(k for k, v in res.items() if v[0] == 1)
         broken = sorted(k for k, v in res.items() if v[0] == 2)
         print("%-28s fired=%s%s" % (name, ",".join(fired) or "-", (" undecided=" + ",".join(broken)) if broken else ""))
